@@ -38,7 +38,7 @@ ASSUMPTIONS = [
 ]
 
 NP = NotPassed()
-DEFAULTS = [False, 0, 0.0, "", [], {}, None, True, 1, "x", [0], {"a": None}, {"default": 1}, [{"a": [False]}, 0]]
+DEFAULTS = [False, 0, 0.0, "", [], {}, None, True, 1, "x", [0], {"a": None}, {"default": 1}, [{"a": [False]}, 0], [[{"z": 1}], [[{"y": [{"x": 0}]}]]]]
 
 
 # --------------------------------------------------------------------------- inner shapes: schema carrying "default": D
@@ -57,6 +57,7 @@ def inner_shapes():
     out.append(("not", T({"not": {"type": "string"}})))
     # compositions whose members are all trivial: what is left to carry the default is "the trivial element"
     out.append(("allOf[{}]", T({"allOf": [{}]})))
+    out.append(("object+allOf[{}]", T({"type": "object", "title": "In", "allOf": [{}], "anyOf": [True]})))
     out.append(("anyOf[true]+oneOf[{}]", T({"anyOf": [True], "oneOf": [{}]})))
     out.append(("type+anyOf", T({"type": "string", "anyOf": [{"minLength": 1}, {"maxLength": 3}]})))
     out.append(("kw+not", T({"minLength": 1, "not": {"const": "q"}})))
@@ -98,6 +99,11 @@ def contexts():
     # the same shape twice in one document (and a third time after it), each with its own default
     C.append(("typed.siblings-same-shape", lambda x, d2: _d2({"type": "object", "title": "Ctx", "properties": {"p": x, "s": sib(x, "sibling default"), "t": sib(x, [1, {"t": 0}])}}, d2), lambda t: _prop(t, "p"), True))
     C.append(("untyped.siblings-same-shape-reversed", lambda x, d2: _d2({"properties": {"s": sib(x, {"sibling": None}), "p": x}, "items": sib(x, 0.5)}, d2), lambda t: _prop(t, "p"), True))
+    def plain_twin(x):
+        return {k: v for k, v in copy.deepcopy(x).items() if k not in ("default", "allOf", "anyOf", "oneOf", "not")} if isinstance(x, dict) else x
+
+    # an equal schema WITHOUT the default (and without the composition keywords) earlier in the same document: it must not gain one
+    C.append(("typed.plain-twin-first", lambda x, d2: _d2({"type": "object", "title": "Ctx", "properties": {"first": plain_twin(x), "p": x, "last": plain_twin(x)}}, d2), lambda t: _prop(t, "p"), True))
     C.append(("property.of.property", lambda x, d2: _d2({"type": "object", "title": "Ctx", "properties": {"o": {"type": "object", "title": "Mid", "properties": {"p": x}, "default": {"p": 1}}}}, d2), lambda t: _prop(_prop(t, "o"), "p"), True))
     return C
 
